@@ -8,6 +8,7 @@ Parameters, not proved (DESIGN §5 K3): float rendering (`repr`) and `unidecode`
 hit / hold / sample lines contain integers only and are proved down to the characters.
 -/
 import Reamber.Lemmas.OsuHeader
+import Reamber.Lemmas.OsuDenote
 import Reamber.Generated.OsuTables
 
 namespace Reamber.Osu
@@ -433,5 +434,59 @@ def demoChart : Chart :=
 example : readText (writeText intRender demoChart) = .ok (quantize id demoChart) :=
   read_writeText intRender demoChart (by decide +kernel) (by decide +kernel) (by decide +kernel) (by decide +kernel)
     (by decide +kernel) (by decide +kernel) (by decide +kernel) (by decide +kernel)
+
+/-! ## the file entry point -/
+
+theorem univNl_of_noCr (t : Str) (h : '\r' ∉ t) : univNl t = t := by
+  induction t with
+  | nil => rfl
+  | cons c t ih =>
+    have hc : c ≠ '\r' := fun e => h (by simp [e])
+    have ht : '\r' ∉ t := fun e => h (by simp [e])
+    unfold univNl
+    split
+    · next heq => cases heq
+    · next heq => injection heq with h1 _; exact absurd h1 hc
+    · next heq => injection heq with h1 _; exact absurd h1 hc
+    · next heq => injection heq with h1 h2; subst h1; subst h2; rw [ih ht]
+
+/-- **`read_file(write_file(c)) = quantize c`**: `read_file` is decode + universal newlines + `split("\n")` + `read`
+(`readFile`); on a written text without carriage returns the newline translation is the identity.  Only `"\n"`
+separates lines: U+2028, U+2029, U+0085, \x0b, \x0c, \x1c–\x1e inside a value stay inside it. -/
+theorem readFile_writeText (R : Render) (c : Chart)
+    (hk : 0 < pyTrunc c.md.circleSize) (hk' : pyTrunc c.md.circleSize ≤ 256)
+    (hhits : ∀ h ∈ c.hits, ObjOk2 (pyTrunc c.md.circleSize) (.hit h))
+    (hholds : ∀ h ∈ c.holds, ObjOk2 (pyTrunc c.md.circleSize) (.hold h))
+    (hb : ∀ b ∈ c.bpms, BpmOk2 R b) (hs : ∀ b ∈ c.svs, SvOk2 R b)
+    (hm : MetaOk R c.md) (hnl : ∀ tl ∈ writeMeta c.md, ∀ t ∈ tl, '\n' ∉ R.tok t)
+    (hcr : '\r' ∉ writeText R c) :
+    readFile (writeText R c) = .ok (quantize R.uni c) := by
+  unfold readFile fileLines
+  rw [univNl_of_noCr _ hcr]
+  exact read_writeText R c hk hk' hhits hholds hb hs hm hnl
+
+/-- a chart whose version, tags, audio and hitsound file names contain U+2028 / U+0085 / \x1c: still one line each -/
+def oddChart : Chart :=
+  { md := { stackLeniency := 1, timelineZoom := 2, sliderMultiplier := 3, version := ['v', '\u2028', '1'],
+            tags := [['t', '\u0085', 'g']], audioFileName := ['a', '\u001c', 'b'] },
+    hits := [{ offset := 5, column := 1, file := ['h', '\u2028', 'w'] }] }
+
+example : readFile (writeText intRender oddChart) = .ok (quantize id oddChart) :=
+  readFile_writeText intRender oddChart (by decide +kernel) (by decide +kernel) (by decide +kernel) (by decide +kernel)
+    (by decide +kernel) (by decide +kernel) (by decide +kernel) (by decide +kernel) (by decide +kernel)
+
+/-! ## the hypothesis "no header token renders a line break" is needed (finding D102) -/
+
+/-- a renderer whose transliteration maps U+2028 to a line break — what `unidecode` does -/
+def nlRender : Render :=
+  { repr := fun q => showInt q.floor, uni := fun s => s.map (fun ch => if ch = '\u2028' then '\n' else ch) }
+
+def nlChart : Chart := { md := { stackLeniency := 1, timelineZoom := 2, sliderMultiplier := 3, title := ['a', '\u2028', 'b'] } }
+
+/-- with such a transliteration the written `Title:` line is broken in two and the title reads back cut:
+`read (write c) ≠ quantize c` — the excluded point of `read_writeText` misbehaves in the real code as well (D102) -/
+theorem uni_newline_counterexample :
+    (readText (writeText nlRender nlChart)).toOption.map (·.md.title) = some ['a'] ∧
+    (quantize nlRender.uni nlChart).md.title = ['a', '\n', 'b'] := by decide +kernel
 
 end Reamber.Osu
